@@ -79,15 +79,7 @@ Proof. vm_compute. reflexivity. Qed.
 
 (* the run above is timely (hypothesis of bp_timeout): stamps never decrease, no live deadline is passed *)
 Example ex_timely : timely_from (@count3 N) (@split_logs N) cfgW (bp_init cfgW 0, []) 0 (ls1W ++ ls2W).
-Proof.
-  cbn. repeat match goal with
-  | |- _ /\ _ => split
-  | |- Forall _ _ => constructor
-  | |- True => exact I
-  | |- (_ <= _)%Z => lia
-  | |- _ -> _ => intros _; cbn; try lia
-  end.
-Qed.
+Proof. apply timelyb_sound. vm_compute. reflexivity. Qed.
 
 (* a run that is NOT timely (shard 0's deadline 100 is passed without its timer firing) keeps an item pending
    beyond the timeout: the hypothesis is needed *)
